@@ -290,7 +290,9 @@ def _key(toks, i):
     return (None, toks[i])
 
 
-def ghost_arg_table(ann):
+def ghost_arg_table(ann, raw=False):
+    """raw: keep the keys whose calls carry no ghost argument (value []) and the keys whose calls disagree (value None), so
+    that tables of several functions can be merged without losing a disagreement"""
     table, bad = {}, set()
     for i, o, c in _calls(ann):
         args = _split_args(ann, o, c)
@@ -301,6 +303,10 @@ def ghost_arg_table(ann):
             if k in table and table[k] != g:
                 bad.add(k)
             table.setdefault(k, g)
+    if raw:
+        for k in bad:
+            table[k] = None
+        return table
     for k in bad:
         table.pop(k, None)
     return {k: v for k, v in table.items() if v}
@@ -313,15 +319,17 @@ UNIT_TABLE = {}     # filled by the unit builder: ghost-argument table of all te
 
 
 def merge_tables(tables):
+    """tables in raw form (see ghost_arg_table): a callee whose calls disagree anywhere in the unit -- some with, some without
+    ghost arguments, or with different ones -- is left out"""
     out, bad = {}, set()
     for t in tables:
         for k, v in t.items():
-            if k in out and out[k] != v:
+            if v is None or (k in out and out[k] != v):
                 bad.add(k)
             out.setdefault(k, v)
     for k in bad:
         out.pop(k, None)
-    return out
+    return {k: v for k, v in out.items() if v}
 
 
 def complete_ghost_args(ann, merged):
